@@ -27,8 +27,9 @@ def attempt(pgpy, blob, opener):
         try:
             m = pgpy.PGPMessage.from_blob(bytes(blob))
             d = opener(m)
-            if d is m or d.is_encrypted:
+            if d.is_encrypted:
                 return 'raised', ''
+            # (decrypt() handing back the very object it was given counts as a result too: the caller reads .message from it)
             c = d.message
             return 'returned', sha(c.encode('utf-8') if isinstance(c, str) else bytes(c))
         except Exception:
@@ -64,7 +65,7 @@ def attacks(ctx, blobA, blobB, full):
     for name, s, e in regs:
         bits = list(range(s * 8, e * 8))
         if not full and len(bits) > 24:
-            bits = sorted(rng.sample(bits, 24 if ctx.quick else 96))
+            bits = sorted(rng.sample(bits, min(len(bits), 24 if ctx.quick else 96)))
         for b in bits:
             m = bytearray(blobA)
             m[b // 8] ^= 1 << (b % 8)
@@ -101,6 +102,17 @@ def attacks(ctx, blobA, blobB, full):
             yield 'esk', 'reversed', b''.join(r for t, b, r in reversed(pA[:-1])) + cA[2]
             yield 'esk', 'ESKs of B with container of A', b''.join(r for t, b, r in pB[:-1]) + cA[2]
             yield 'esk', 'container first', cA[2] + esks
+        # packets added around the (untouched) encrypted container: number / order of packets changes, the encrypted data stays. An
+        # unencrypted literal packet carries the attacker's text; nothing but the original plaintext may ever come out of decrypt()
+        forged = build.pkt(11, b'b\x00' + bytes(4) + b'FORGED|F')
+        marker = build.pkt(10, b'PGP')
+        raws = [r for t, b, r in pA]
+        for pos in range(len(raws) + 1):
+            yield 'insert', 'literal before packet %d of %d' % (pos + 1, len(raws)), b''.join(raws[:pos]) + forged + b''.join(raws[pos:])
+            yield 'insert', 'marker before packet %d of %d' % (pos + 1, len(raws)), b''.join(raws[:pos]) + marker + b''.join(raws[pos:])
+        yield 'insert', 'container of B before container of A', esks + cB[2] + cA[2]
+        yield 'insert', 'container of A before container of B with ESKs of A', esks + cA[2] + cB[2]
+        yield 'insert', 'compressed forged literal first', build.pkt(8, b'\x00' + forged) + blobA
 
 
 def run(ctx):
